@@ -24,6 +24,26 @@ Definition check_bundle (c : bundle_case) : list string :=
   tag_if (negb (list_eqb Bool.eqb (bundle_included (bc_ntags c) (bc_archs c)) (bc_included c)))
          "mismatch:bundle-included-images".
 
+(* ---- the header scan: abstract tar stream vs archive/tar on an *os.File, and vs the
+        real BuildIndex ------------------------------------------------------------------
+   [sc_members]: what a raw block-by-block walk finds (header blocks incl. extension
+   headers, size field); [sc_trace]: what the standard reader placed directly on the
+   file reports after each Next() (f.Seek(0, io.SeekCurrent), hdr.Size);
+   [sc_target]: offset of the first end-of-archive block (kind stdlib) or of the first
+   header BuildIndex appended (kind bundle, members = those MultiWrite wrote) *)
+Record scan_case := { sc_members : list member; sc_trace : list (Z * Z); sc_target : Z }.
+Definition zpair_eqb (a b : Z * Z) : bool := Z.eqb (fst a) (fst b) && Z.eqb (snd a) (snd b).
+Definition check_scan (c : scan_case) : list string :=
+  tag_if (negb (list_eqb zpair_eqb (reader_trace 0 (sc_members c)) (sc_trace c))) "mismatch:scan-reader-trace" ++
+  tag_if (negb (Z.eqb (stream_len (sc_members c)) (sc_target c))) "mismatch:scan-stream-length" ++
+  (match scan_offset (sc_members c) with
+   | Ok o => tag_if (negb (Z.eqb o (sc_target c))) "mismatch:scan-offset"
+   | _ => ["mismatch:scan-outcome"]
+   end) ++
+  (* the translated arithmetic on what the real reader reported last *)
+  (let '(p, z) := List.last (sc_trace c) (0, 0)%Z in
+   tag_if (negb (Z.eqb (append_offset p z) (sc_target c))) "viol:append-offset-not-first-end-of-archive-block").
+
 (* ---- config ----------------------------------------------------------------------- *)
 (* [cc_shlex]: the real shlex.Split on the command strings of the case
    (None = it returned an error); [cc_rfc3339]: the real created.Format(time.RFC3339);
